@@ -288,6 +288,103 @@ func collTrap(r *vproto.Rng) []ip {
 	return append(ps, tail...)
 }
 
+// ---- smooth long runs: densely digitised gentle curves where ONE output segment replaces
+// 65..500 consecutive vertices (the middle of such a run sags away from the chord while its tail
+// stays close: every skipped vertex has to be re-checked against every longer chord).
+
+func quarter(t float64) float64 { // tolerances are multiples of 1/4 (exact in binary)
+	q := math.Round(t*4) / 4
+	if q < 0.5 {
+		q = 0.5
+	}
+	return q
+}
+
+// arc of a circle of radius R, vertices `sp` apart (integer-rounded), n vertices; tolerance such
+// that the sagitta of a run of about `run` vertices equals it: t = (run*sp)^2 / (8R)
+func smoothArc(r *vproto.Rng, n int) ([]ip, float64) {
+	R := float64([]int{150, 300, 600, 1000, 1500, 3000}[r.Intn(6)])
+	sp := float64(r.Range(1, 3))
+	run := float64(r.Range(70, 500))
+	if run > float64(n)*0.8 {
+		run = math.Max(66, float64(n)*0.6)
+	}
+	tol := quarter(run * sp * run * sp / (8 * R))
+	a0 := r.Float() * 2 * math.Pi
+	dir := 1.0
+	if r.Bool() {
+		dir = -1
+	}
+	cx, cy := float64(r.Range(-50, 50)), float64(r.Range(-50, 50))
+	ps := make([]ip, n)
+	for k := range ps {
+		a := a0 + dir*float64(k)*sp/R
+		ps[k] = ip{int64(math.Round(cx + R*math.Cos(a))), int64(math.Round(cy + R*math.Sin(a)))}
+	}
+	return ps, tol
+}
+
+// parabola y = x^2/(2p): curvature 1/p at the vertex, flatter further out
+func smoothParabola(r *vproto.Rng, n int) ([]ip, float64) {
+	pp := float64([]int{200, 500, 1000, 2500}[r.Intn(4)])
+	sp := int64(r.Range(1, 3))
+	run := float64(r.Range(70, 400))
+	if run > float64(n)*0.8 {
+		run = math.Max(66, float64(n)*0.6)
+	}
+	tol := quarter(run * float64(sp) * run * float64(sp) / (8 * pp))
+	x0 := -int64(n) * sp / 2
+	if r.Bool() {
+		x0 = -int64(r.Intn(n)) * sp
+	}
+	ps := make([]ip, n)
+	for k := range ps {
+		x := x0 + int64(k)*sp
+		ps[k] = ip{x, int64(math.Round(float64(x) * float64(x) / (2 * pp)))}
+	}
+	if r.Bool() { // rotate by a quarter turn
+		for k := range ps {
+			ps[k] = ip{-ps[k].y, ps[k].x}
+		}
+	}
+	return ps, tol
+}
+
+// slow sine wave with a small zig-zag on top: very flat, long droppable runs
+func smoothWave(r *vproto.Rng, n int) ([]ip, float64) {
+	amp := float64(r.Range(8, 60))
+	period := float64(r.Range(300, 1200))
+	sp := int64(r.Range(1, 3))
+	zig := int64(r.Intn(2))
+	// curvature at a crest: amp*(2pi/period)^2 per unit of x
+	curv := amp * (2 * math.Pi / (period * float64(sp))) * (2 * math.Pi / (period * float64(sp)))
+	run := float64(r.Range(70, 300))
+	tol := quarter(run*float64(sp)*run*float64(sp)*curv/8 + float64(zig))
+	ps := make([]ip, n)
+	for k := range ps {
+		y := int64(math.Round(amp * math.Sin(2*math.Pi*float64(k)/period)))
+		if zig == 1 && k%2 == 1 {
+			y++
+		}
+		ps[k] = ip{int64(k) * sp, y}
+	}
+	return ps, tol
+}
+
+func smoothCase(r *vproto.Rng, n int) (string, []ip, float64) {
+	switch r.Intn(5) {
+	case 0, 1:
+		ps, t := smoothArc(r, n)
+		return "smooth", ps, t
+	case 2, 3:
+		ps, t := smoothParabola(r, n)
+		return "smooth", ps, t
+	default:
+		ps, t := smoothWave(r, n)
+		return "smooth", ps, t
+	}
+}
+
 // star-shaped closed ring around (cx,cy): first == last
 func starRing(r *vproto.Rng, cx, cy int64, rad float64, m int) []ip {
 	if m <= 0 {
@@ -418,8 +515,45 @@ func gen(seed uint64, tier string) {
 
 	n := 6000
 	big := false
+	// smooth long runs: few but long cases (the exact model costs O(run^2) rational distance tests per run)
+	smoothLens := []int{200, 260, 330, 420, 560, 640, 700}
 	if tier == "thorough" {
 		n, big = 60000, true
+		smoothLens = nil
+		for k := 0; k < 110; k++ {
+			smoothLens = append(smoothLens, r.Range(200, 900))
+		}
+		for k := 0; k < 30; k++ {
+			smoothLens = append(smoothLens, r.Range(900, 1600))
+		}
+		for k := 0; k < 6; k++ {
+			smoothLens = append(smoothLens, r.Range(1600, 3000))
+		}
+	}
+	// the seeded example of a gentle bend: unit steps on a circle of radius 1000, tolerance 11.25
+	{
+		m := 700
+		if tier == "thorough" {
+			m = 1500
+		}
+		ps := make([]ip, m)
+		for k := range ps {
+			a := float64(k) / 1000
+			ps[k] = ip{int64(math.Round(1000 * math.Cos(a))), int64(math.Round(1000 * math.Sin(a)))}
+		}
+		emit("smooth", 11.25, geom.LineString(toPath(ps)))
+	}
+	for _, m := range smoothLens {
+		cls, ps, tol := smoothCase(r, m)
+		emit(cls, tol, geom.LineString(toPath(ps)))
+	}
+	// a smooth ring with a hole, and a multi-line string with a long smooth member
+	{
+		ps, tol := smoothArc(r, 300)
+		ring := toPath(append(ps, ps[0]))
+		emit("smooth", tol, geom.Polygon{ring, P(ring[0].X/2, ring[0].Y/2, ring[0].X/2+3, ring[0].Y/2, ring[0].X/2, ring[0].Y/2+3, ring[0].X/2, ring[0].Y/2)})
+		ps2, tol2 := smoothParabola(r, 260)
+		emit("smooth", tol2, geom.MultiLineString{toPath(ps2), P(0, 0, 5, 5), toPath(ps2[:90])})
 	}
 	for c := 0; c < n; c++ {
 		tol := pickTol(r)
